@@ -213,7 +213,8 @@ def record(check, n, seed):
             kinds['reused'] = kinds.get('reused', 0) + 1
         inputs.append((p, ts, kind))
     rows = [r for rs in B.pmap(record_seq, [(B.normalize(p), ts, how) for p, ts, how in inputs]) for r in rs][:n]
-    rejects = vlib.validate_rows(check, 'Trace_C09', rows, 'random-patterns', chunk=4000)
+    rejects, skipped = B.validate_rows(check, 'Trace_C09', rows, 'random-patterns')
+    check.extra['recorded_rows_not_judged_order_dependent'] = skipped
     for row, rej in rejects:
         row['_rejected'] = True
         check.violation(dict(kind='code->spec', row=row, clause=rej['clause']),
